@@ -156,7 +156,10 @@ def theorem_class(op, info):
     flags = [x.split(".")[0] for x in parts]
     finals = [x.split(".", 1)[1] if "." in x else None for x in parts]
     if op in ("SLT", "SLE", "SGT", "SGE"):
-        return "signed-comparison(not covered by a theorem)"
+        # C25_balancer_sound_signed: truism and implicit assumption balanced only across +/- or unchanged, same final expression
+        if len(flags) >= 2 and all(f in ("", "m") for f in flags[:2]) and flags[0] == flags[1] and finals[0] == finals[1]:
+            return "C25_balancer_sound_signed(signed ordering, both paths unchanged or only +/-, same expression)"
+        return "signed-comparison(a path goes through another arm: no composite theorem)"
     if op in ("eq", "ne"):
         return "C25_balancer_sound(==, != on every path)"
     mods = ["m" in f for f in flags]
